@@ -136,11 +136,12 @@ func (f *File) scratch() *File {
 	return &c
 }
 
-// added lists, in a fixed order, the imports registered in f but not in orig.
+// added lists, in a fixed order, the imports registered in f but not in orig (an anonymous import
+// of orig that got its name in f counts as added).
 func (f *File) added(orig *File) string {
 	var added []string
 	for path, def := range f.imports {
-		if _, ok := orig.imports[path]; !ok {
+		if o, ok := orig.imports[path]; !ok || o.name != def.name {
 			added = append(added, fmt.Sprintf("%q=%s", path, def.name))
 		}
 	}
